@@ -170,6 +170,7 @@ type stepSpec struct {
 
 func runC06(c *report.Ctx) {
 	p := c.P
+	ruleOpeningDeletesNothing(c)
 	ruleSoleWriter(c)
 	ruleNoTxUnderUpdate(c, 8)
 	ruleMemoryTipFollowsPersistedTip(c) // after a restart the in-memory tip is the persisted one
